@@ -31,6 +31,7 @@ func c14Doc(rng *rand.Rand) []byte {
 		`{"a": {"b": "text"}, "list": [{"k": 1}, {"k": 2}], "n": -1.5, "s": "", "o": {}}`,
 		`{"a": null, "list": [], "n": 0, "s": "é", "o": {"x": null}}`,
 		`{"list": [[1], [2, 3]], "n": 10, "s": "a,b", "o": {"x": [1]}}`,
+		`{"a": {"b": "100%"}, "list": ["%d items", "%s", "%!", "50%%"], "n": 1, "s": "%v", "o": {"x%": "%"}}`,
 	}
 	return []byte(docs[rng.IntN(len(docs))])
 }
@@ -93,6 +94,7 @@ type cliCfg struct {
 	progFile bool   // -f
 	input    string // stdin | files
 	omode    string // "" | "-" | "path"
+	stale    bool   // the -o FILE already exists with other, longer content
 }
 
 // runCfg runs the binary in dir with the given configuration.
@@ -104,6 +106,10 @@ func runCfg(c *Case, cc cliCase, cfg cliCfg, dir string) *cliOut {
 	}
 	opath := filepath.Join(dir, "out.json")
 	os.Remove(opath)
+	if cfg.omode == "path" && cfg.stale {
+		// an existing, longer file at the -o path must be replaced, not overwritten in place
+		os.WriteFile(opath, []byte(strings.Repeat("STALE CONTENT OF AN EARLIER RUN\n", 200)), 0o644)
+	}
 	switch cfg.omode {
 	case "-":
 		args = append(args, "-o", "-")
@@ -132,7 +138,7 @@ func runCfg(c *Case, cc cliCase, cfg cliCfg, dir string) *cliOut {
 	if r.TimedOut {
 		o.fault = "timeout"
 	}
-	if b, err := os.ReadFile(opath); err == nil {
+	if b, err := os.ReadFile(opath); err == nil && !(cfg.stale && strings.HasPrefix(string(b), "STALE CONTENT") && strings.Count(string(b), "STALE") == 200) {
 		o.ofile, o.hasO = string(b), true
 	}
 	return o
@@ -157,6 +163,7 @@ func c14Run(c *Case) {
 	inputMode := (cell / 2) % 3 // 0 stdin, 1 one file, 2 several files
 	nsel := (cell / 6) % 3
 	cfg.omode = []string{"", "-", "path"}[(cell/18)%3]
+	cfg.stale = c.Idx%2 == 0
 	switch inputMode {
 	case 0:
 		cfg.input = "stdin"
@@ -300,6 +307,35 @@ func c14Run(c *Case) {
 		}
 		c.Held()
 	}
+	// R6: `-r A -r B` processes the value once per selector, each starting from the document as read
+	if cc.roSel && len(cc.sels) == 2 && len(cc.inputs) == 1 && !strings.Contains(cc.prog, "END") && !strings.Contains(cc.prog, "c++") && !strings.Contains(cc.prog, "count") {
+		noO := cfg
+		noO.omode = ""
+		a, b := cc, cc
+		a.sels, b.sels = cc.sels[:1], cc.sels[1:]
+		oa, ob, oab := runCfg(c, a, noO, dir), runCfg(c, b, noO, dir), runCfg(c, cc, noO, dir)
+		c.Count("two_selectors_vs_one_by_one")
+		if oa.exit == 0 && ob.exit == 0 {
+			if oab.exit != 0 || oab.stdout != oa.stdout+ob.stdout {
+				c.Violation(fmt.Sprintf("%s: `-r '%s' -r '%s'` prints %q but the two selectors one by one print %q + %q | program %s", cellName, cc.sels[0], cc.sels[1], clip(oab.stdout, 80), clip(oa.stdout, 60), clip(ob.stdout, 60), cc.prog), nil, rp)
+				return
+			}
+			if cfg.omode != "" {
+				ob2 := runCfg(c, b, cfg, dir)
+				if ob2.exit == 0 && bin.exit == 0 {
+					w1, w2 := bin.ofile, ob2.ofile
+					if cfg.omode == "-" {
+						w1, w2 = strings.TrimPrefix(bin.stdout, oab.stdout), strings.TrimPrefix(ob2.stdout, ob.stdout)
+					}
+					if w1 != w2 {
+						c.Violation(fmt.Sprintf("%s: with `-r '%s' -r '%s'` -o writes %q, with the last selector alone %q | program %s", cellName, cc.sels[0], cc.sels[1], clip(w1, 80), clip(w2, 80), cc.prog), nil, rp)
+						return
+					}
+				}
+			}
+			c.Held()
+		}
+	}
 	if c.Idx%300 == 2 {
 		c.Sample(map[string]any{"cell": cellName, "program": clip(cc.prog, 300), "selectors": cc.sels, "inputs": ins})
 	}
@@ -400,7 +436,7 @@ func init() {
 			if tier == "thorough" {
 				return 1 + 54*400
 			}
-			return 1 + 54*6
+			return 1 + 54*20
 		},
 		Run:           c14Run,
 		MinConclusive: func(tier string) int { return 600 },
